@@ -1024,7 +1024,8 @@ bool port_is_enabled(const Port* port, char* loc, size_t loc_size,
                 // (only with relative_to_parent there is a "../" to skip)
                 const char* old_end = loc_copy + loclen
                                       + (relative_to_parent ? 3 : 0);
-                walker(ask_port, collapsed_loc, old_end, base, data, runtime);
+                walker(ask_port, collapsed_loc, old_end, base, data,
+                       (subport && port_runtime) ? port_runtime : runtime);
             }
 
             return res;
